@@ -273,11 +273,58 @@ class ClusterPlay:
         elif kind == "future-timeout":
             self.byz_timeout(z, vmax + rng.choice([1, 2]), [t for t in self.nodes if rng.random() < 0.7])
 
+    def gap(self):
+        """one replica hears nothing for several views (the Byzantine replicas, if any, help the others
+        along), then hears everything again but can fetch only the newest blocks: it sees certified
+        chains whose older ancestors it lacks (commit must wait for the ancestors)"""
+        rng = self.rng
+        cand = [i for i in self.nodes if i != self.fixed]
+        if not cand:
+            return
+        x = rng.choice(cand)
+        g = [i for i in self.nodes if i != x]
+        if len(g) + len(self.byz) < self.q or len(g) < 2:
+            return
+        helped = set()
+
+        def round_(grp):
+            busy = self.pump_round(grp)
+            if self.byz:
+                vmax = max(self.view[i] for i in grp)
+                for b, (v, _, _) in list(self.blocks.items()):
+                    if b != "G" and v >= vmax - 1 and b not in helped:
+                        helped.add(b)
+                        for z in self.byz:
+                            self.byz_vote(z, b)
+                        busy = True
+            if not busy:
+                self.timeouts(grp)
+                for z in self.byz:
+                    self.byz_timeout(z, min(self.view[i] for i in grp), grp)
+        for _ in range(rng.randrange(6, 14)):
+            round_(g)
+        for a in g:
+            self.say(f"drop {a} {x} max=1000")
+        self.say(f"fetch {x} off")
+        # only the newest blocks of the main branch can still be had from the peers
+        tip = max((b for b in self.blocks if b != "G"), key=lambda b: self.blocks[b][0], default=None)
+        for _ in range(rng.choice([1, 2, 3, 3, 4])):
+            if tip is None or tip == "G" or tip not in self.blocks:
+                break
+            self.say(f"@{x} fetchable {tip} on")
+            tip = self.blocks[tip][1]
+        for _ in range(rng.randrange(6, 14)):
+            round_(self.nodes)
+
     # ---- whole runs ----
-    def run(self, steps):
+    def run(self, steps, gap=None):
         rng = self.rng
         self.settle()
-        for _ in range(steps):
+        gap = rng.random() < 0.2 if gap is None else gap
+        gap_at = rng.randrange(steps) if gap else -1
+        for step in range(steps):
+            if step == gap_at:
+                self.gap()
             r = rng.random()
             if r < 0.40:
                 self.pump_round(p=rng.choice([1.0, 0.7, 0.4]), maxk=rng.choice([None, None, 1, 2]))
@@ -338,6 +385,15 @@ class ClusterFam(Family):
                 nbyz = rng.choice([f, f, f, 0, max(f - 1, 0)])
                 rules = RULES[k % 3]
                 m.ask("reset")
+                if k % 6 == 4:
+                    rules = rng.choice(RULES)
+                    # a lagging replica that can fetch only the newest blocks; a fixed leader (or n >= 5)
+                    # keeps the others committing while it is away
+                    ld = rng.choice([None] + list(range(1, n + 1))) if n >= 5 else rng.randrange(1, n + 1)
+                    p = ClusterPlay(m, rng, scheme, n, rules, 0, agg=rng.choice([0, 0, 1]), leader=ld)
+                    lines = p.run(rng.randrange(3, 10), gap=True)
+                    yield (f"cl-gap-{scheme}-{rules}-n{n}-{k}", lines)
+                    continue
                 p = ClusterPlay(m, rng, scheme, n, rules, nbyz, agg=rng.choice([0, 0, 1]), leader=None)
                 steps = rng.randrange(8, 30 if scheme != "bls12" else 14)
                 lines = p.run(steps)
